@@ -14,7 +14,12 @@ from . import feat_defect
 
 class H5ContourEvent:
     def __init__(self, h5group, length=None):
-        self._length = length
+        # The HDF5 attribute may be stored as a floating point number;
+        # a negative event count is invalid and ignored.
+        if length is None or length < 0:
+            self._length = None
+        else:
+            self._length = int(length)
         self.h5group = h5group
         # for hashing in util.obj2bytes
         self.identifier = (h5group.file.filename, h5group["0"].name)
